@@ -360,11 +360,18 @@ def _collect1(w, f):
                     lens.append(("nth", t))
                 elif n == "reverse_acc" and t.num_args() == 2:
                     lens.append(("rev", t))
+                if n.endswith("__all") and t.num_args() >= 1:
+                    lens.append(("all", t))
                 elif (n.endswith("__list") or n.startswith("comp!")) and t.num_args() >= 1:
                     lens.append(("map", t))
             stack.extend(t.children())
-    cache[k] = (f, apps, cands, lens)      # keep f alive so the id stays valid
+    cache[k] = (f, apps, cands, lens, frozenset(seen))      # keep f alive so the id stays valid
     return apps, cands
+
+
+def subterm_ids(w, f):
+    _collect1(w, f)
+    return w._collect_cache[f.get_id()][4]
 
 
 def len_args(w, f):
@@ -461,6 +468,13 @@ def _on_cycle(w, n):
     return res
 
 
+def _structural_on_first(n):
+    """Definitions generated by the engine that recurse structurally on their first (list)
+    argument: evaluating them on a concrete cons/nil spine terminates."""
+    return n.startswith(("comp!", "all!", "any!", "wf_list__")) or \
+        n.endswith(("__list", "__all", "__cat"))
+
+
 def inline_rec_once(w, f, times=1):
     """Unfold the applications of RECURSIVE spec functions occurring in f `times` times (defining
     equation used as a rewrite) and simplify: accessors are pushed through the if-then-else of the
@@ -487,7 +501,10 @@ def inline_nonrec(w, f, depth=10):
     g = f
     for _ in range(depth):
         apps = [a for a in _collect1(w, g)[0]
-                if a.decl().name() in w.defs and not _on_cycle(w, a.decl().name())]
+                if a.decl().name() in w.defs and (
+                    not _on_cycle(w, a.decl().name()) or
+                    (_structural_on_first(a.decl().name()) and a.num_args() > 0
+                     and _is_ctor(a.arg(0))))]
         if not apps:
             break
         g = z3.substitute(g, *[(a, _inst(w, a, None)) for a in apps])
@@ -555,6 +572,11 @@ def unfold(w, formulas, fuel=2, facts=None, allclass_budget=0, facts_fuel=3):
                     if c is not None:
                         known[a_.get_id()] = c
                         changed = True
+    # deep unfolding (beyond the fuel) only at terms the formulas themselves mention
+    relevant = set()
+    for f_ in list(formulas) + list(facts or []):
+        relevant |= subterm_ids(w, f_)
+    deep = fuel + 8
     # the goal gets the full fuel; the assumptions at most `facts_fuel` levels
     frontier = [(a, 0) for a in _collect(w, list(formulas), visited, cands)]
     f0 = max(0, fuel - facts_fuel)
@@ -568,7 +590,7 @@ def unfold(w, formulas, fuel=2, facts=None, allclass_budget=0, facts_fuel=3):
             if n in w.lazy:
                 t = app.arg(0)
                 ctor = _is_ctor(t)      # structural recursion on a concrete constructor: free
-                if lvl > fuel and not ctor:
+                if lvl > fuel and not ctor and not (lvl <= deep and t.get_id() in relevant):
                     continue
                 if class_of(t) == "<nonnode>":
                     kind_, sf_ = w.lazy[n]
@@ -609,7 +631,8 @@ def unfold(w, formulas, fuel=2, facts=None, allclass_budget=0, facts_fuel=3):
                 recursive = w.defs[n][3]
                 concrete = recursive and all(
                     _is_ctor(c) for c in app.children() if c.sort() in (S.Py, S.PyList))
-                if recursive and lvl >= fuel and not concrete:
+                if recursive and lvl >= fuel and not concrete and not (
+                        lvl < deep and app.num_args() > 0 and app.arg(0).get_id() in relevant):
                     continue
                 done.add(app.get_id())
                 inst = specialise(_inst(w, app, None), app.children())
